@@ -117,3 +117,56 @@ func vfH_C20_columns(tier int) {
 	vfAssert(vfDeepEqual(before, s), "C20/statement-unchanged")
 	vfReach("C20_columns/ok")
 }
+
+// the time column's alias comes from RewriteTimeFields: only the field spelled exactly `time` is the time
+// column; fields named Time / TIME (or anything else) stay ordinary columns, in order
+func vfH_C20_timefields(tier int) {
+	names := []string{"time", "Time", "TIME", "a", "b"}
+	nf := 2 + vfChoice(2+tier)
+	s := &SelectStatement{}
+	timeAt := -1
+	var want []string
+	timeName := "time"
+	for i := 0; i < nf; i++ {
+		k := vfChoice(len(names))
+		if k == 0 {
+			if timeAt >= 0 {
+				return // one time column per statement
+			}
+			timeAt = i
+		}
+		f := &Field{Expr: &VarRef{Val: names[k]}}
+		if vfChoice(2) == 1 {
+			f.Alias = "x" + string(rune('0'+i))
+		}
+		if k == 0 {
+			if f.Alias != "" {
+				timeName = f.Alias
+			}
+		} else {
+			n := names[k]
+			if f.Alias != "" {
+				n = f.Alias
+			}
+			for _, w := range want {
+				if w == n {
+					return // repeated names get suffixes: the columns harness covers those
+				}
+			}
+			want = append(want, n)
+		}
+		s.Fields = append(s.Fields, f)
+	}
+	vfNativeNote(func() string { return s.String() })
+	s.RewriteTimeFields()
+	cols := s.ColumnNames()
+	vfAssert(len(cols) == 1+len(want), "C20/timefields/one-name-per-output-column")
+	if len(cols) != 1+len(want) {
+		return
+	}
+	vfAssert(cols[0] == timeName, "C20/timefields/time-column-or-its-alias-first")
+	for i, w := range want {
+		vfAssert(cols[1+i] == w, "C20/timefields/ordinary-fields-keep-their-columns-in-order")
+	}
+	vfReach("C20_timefields/ok")
+}
